@@ -23,3 +23,22 @@ func init() {
 }
 
 func TestC09(t *testing.T) { runWorldProp(t, "C09") }
+
+// the same oracle over the AVS entry points (AVS precompile methods through real Ethereum
+// transactions, opt-in/out and task result messages, client chain and token registration):
+// the AVS precompile answers "false" instead of reverting, so every failing path must have
+// written nothing before it failed
+func init() {
+	base := *worldProps["C09"]
+	base.Name = "C09AVS"
+	w := avsWeights()
+	for k, v := range map[string]int{"regToken": 3, "regChain": 2, "updToken": 2, "optIn": 2, "optOut": 1, "setKey": 2, "undelegate": 3} {
+		w[k] = v
+	}
+	base.Gen = GenOpts{Weights: w, HostilePct: 25, ExtremePct: 2, Anchor: true, Tempos: []int{7, 12, 21}, CapBits: 40, Dynamic: avsDynamic}
+	base.Config = avsConfig
+	base.MinSteps, base.MaxSteps = 40, 120
+	registerWorldProp(&base)
+}
+
+func TestC09AVS(t *testing.T) { runWorldProp(t, "C09AVS") }
